@@ -76,12 +76,14 @@ class Cat:
         return rid
 
     def add(self, family, op, rasters, params=None, backend="numpy", chunks=None, identity="same",
-            private=False, heavy=False, expect_error=None):
+            private=False, heavy=False, expect_error=None, always=False):
         e = {"id": len(self.entries), "family": family, "op": op, "params": params or {},
              "rasters": list(rasters), "backend": backend, "chunks": chunks or {},
              "identity": identity, "private": private, "heavy": heavy}
         if expect_error:
             e["expect_error"] = expect_error
+        if always:
+            e["always"] = True      # survives the quick tier's thinning of JIT-heavy families
         self.entries.append(e)
         return e
 
@@ -200,12 +202,16 @@ def catalogue_c11(seed, tier, rng):
     ti = c.raster("targets_i4", _spec(targets(rs, "i4", 8, 9), 1.0, 2.0))
     tf = c.raster("targets_f8", _spec(targets(rs, "f8", 8, 9), 1.0, 2.0))
     tl = c.raster("targets_lonlat", _spec(targets(rs, "i8", 6, 7), 1.0, 0.5, x0=-10.0, y0=-1.0, res=False))
-    pv = [({}, "default"), ({"target_values": [1]}, "t1"), ({"target_values": [2, 3]}, "t23"),
+    # the same number as Python int and as float, also at magnitudes where int64 and float64
+    # arithmetic part ways (squares overflow int64 above ~3.04e9; floats lose integers above 2**53)
+    big = [({"max_distance": 4000000000}, "md4e9int"), ({"max_distance": 4e9}, "md4e9"),
+           ({"max_distance": 2 ** 53 + 1}, "md2p53int"), ({"max_distance": float(2 ** 53)}, "md2p53")]
+    pv = big + [({}, "default"), ({"target_values": [1]}, "t1"), ({"target_values": [2, 3]}, "t23"),
           ({"max_distance": 2.0}, "md2"), ({"max_distance": 5}, "md5int"), ({"max_distance": 5.0}, "md5"),
           ({"distance_metric": "MANHATTAN"}, "man"), ({"distance_metric": "MANHATTAN", "max_distance": 3.0, "target_values": [3]}, "man3")]
     for op in ("proximity", "allocation", "direction"):
-        for p, _ in pv:
-            c.add("proximity", op, [ti], dict(p), heavy=True)
+        for p, tag in pv:
+            c.add("proximity", op, [ti], dict(p), heavy=True, always=(op == "proximity" and tag.startswith("md4e9")))
         c.add("proximity", op, [tf], {"max_distance": 2.0}, heavy=True)
         c.add("proximity", op, [tl], {"distance_metric": "GREAT_CIRCLE"}, heavy=True)
         c.add("proximity", op, [ti], {"max_distance": 2.0}, backend="dask", heavy=True,
